@@ -27,6 +27,7 @@ REQUIRED_EVENTS = ["process_calls", "deliveries", "prompt_obligations", "bounded
                    "streams_with_imitating_junk", "truncated_pieces"]
 
 THRESHOLDS = [16, 128, 2048, None]
+QUICK_SHARDS = 4
 
 
 def assemble(pieces):
@@ -270,7 +271,7 @@ def run(ctx):
 
 
 def _run(ctx):
-    n = 700 if not ctx.thorough else 100000
+    n = 2000 if not ctx.thorough else 100000
     idx = 0
     for i in range(n):
         if not ctx.mine(i):
@@ -283,7 +284,7 @@ def _run(ctx):
                     continue  # long flush tail, character by character: sampled
                 one_case(ctx, {"i": i, "thr": thr, "c": c, "cutmode": mode})
     # truncation of corpus messages at every position
-    m = 12 if not ctx.thorough else 400
+    m = 32 if not ctx.thorough else 400
     for i in range(1_000_000, 1_000_000 + m):
         if not ctx.mine(i):
             continue
